@@ -469,6 +469,7 @@ func (p *Parser) parseProviderArgument(pkg *packages.Package, kessokuPackageScop
 			Requires:          result.Requires,
 			IsReturnError:     result.IsReturnError,
 			IsAsync:           result.IsAsync,
+			IsVariadic:        result.IsVariadic,
 			ReferencedImports: referencedImports,
 		})
 	} else {
@@ -479,6 +480,7 @@ func (p *Parser) parseProviderArgument(pkg *packages.Package, kessokuPackageScop
 			Requires:          result.Requires,
 			IsReturnError:     result.IsReturnError,
 			IsAsync:           result.IsAsync,
+			IsVariadic:        result.IsVariadic,
 			ReferencedImports: referencedImports,
 		})
 	}
@@ -494,6 +496,7 @@ type parseProviderTypeResult struct {
 	IsReturnError bool
 	IsAsync       bool
 	IsStruct      bool
+	IsVariadic    bool // the provider function's last parameter is variadic (...T)
 }
 
 func (p *Parser) parseProviderType(pkg *packages.Package, providerType types.Type, varPool *VarPool) (*parseProviderTypeResult, error) {
@@ -586,6 +589,7 @@ func (p *Parser) parseProviderType(pkg *packages.Package, providerType types.Typ
 			IsReturnError: isReturnError,
 			IsAsync:       false,
 			IsStruct:      false,
+			IsVariadic:    providerFnSig.Variadic(),
 		}, nil
 	case "structProvider":
 		if typeArgs.Len() < 1 {
